@@ -28,6 +28,7 @@ func checkC14(c *Ctx) {
 	c.checkShutdownDone()
 	c.checkPauseBeforeStoreDelete()
 	c.checkEvictionDetachesAll()
+	c.checkCleanupOrder()
 }
 
 // ---------------------------------------------------------------------------------------------
